@@ -349,6 +349,10 @@ func RunSection(cfg verifh.Cfg, ops []string, mk func(cfg verifh.Cfg) Target) []
 				if c.serr {
 					return nil, e0
 				}
+				if c.nilv {
+					// the loader returns (nil, nil): no error, no resource
+					return nil, nil
+				}
 				res := &Res{ID: c.id}
 				mu.Lock()
 				allRes = append(allRes, res)
@@ -412,6 +416,16 @@ func RunSection(cfg verifh.Cfg, ops []string, mk func(cfg verifh.Cfg) Target) []
 					c.val = fmt.Sprint(x.ID)
 				case nil:
 					c.val = "nil"
+					if mode == "rm" && err == nil && !c.panicked {
+						// (nil, nil) from a user without a type assertion (collection.Cache.Take): the cached nil
+						// instance - name the execution that loaded it
+						for _, d := range calls {
+							if d.key == c.key && d.nilv && !d.serr && !d.spanic && d.runs > 0 {
+								c.val = fmt.Sprint(d.id)
+								break
+							}
+						}
+					}
 				default:
 					c.val = "bad"
 				}
@@ -632,6 +646,11 @@ func Gen(r *verifh.Rng, nsec int, via string) []verifh.Section {
 		// (rm: the leader's GetResource panics and so do the joiners of that flight; not for the users driven through
 		// Take: collection.Cache.Take hands (nil, nil) to the joiners of a panicking fetch)
 		panicSec := r.Chance(1, 4)
+		// sections with loaders that return (nil, nil) (GetResource and Cache.Take; no panics, no Inject, no Close there)
+		nilSec := mode == "rm" && !nodeUser(via) && r.Chance(1, 6)
+		if nilSec {
+			panicSec = false
+		}
 		// several instances of the object under test in one section (state must not leak between instances: the maps
 		// are per instance). Key n of instance i is written key=<100*i+n>; the targets use the SAME key string n on
 		// instance i, the monitor and the model see different keys: a flight / wait group / resource shared between
@@ -640,7 +659,7 @@ func Gen(r *verifh.Rng, nsec int, via string) []verifh.Section {
 		var ops []string
 		id := 0
 		dlSec, nDl := nodeUser(via) && r.Chance(1, 4), 0
-		if mode == "rm" && via == "" && r.Chance(1, 3) {
+		if mode == "rm" && via == "" && !nilSec && r.Chance(1, 3) {
 			// pre-registered resources (Inject): GetResource must hand out exactly those, create never runs
 			for ob := 0; ob < objs; ob++ {
 				for key := 0; key < k; key++ {
@@ -738,6 +757,11 @@ func Gen(r *verifh.Rng, nsec int, via string) []verifh.Section {
 					}
 					op += fmt.Sprintf(" ek=%d", ek)
 				}
+				if nilSec && serr == 0 && r.Chance(1, 5) {
+					// the loader returns (nil, nil): GetResource stores nil and its type assertion panics for the leader, the
+					// joiners and every later caller of the key; Cache.Take caches nil and hands (nil, nil) to everyone
+					op += " nilv=1"
+				}
 				if mode != "rm" && serr == 0 && !strings.Contains(op, "panic=1") && r.Chance(1, 8) {
 					// the function returns (nil, nil): a value like any other (sf: handed to the joiners, lc: own result)
 					op += " nilv=1"
@@ -777,7 +801,7 @@ func Gen(r *verifh.Rng, nsec int, via string) []verifh.Section {
 		if via != "" {
 			cfg += " via=" + via
 		}
-		if mode == "rm" && via == "" && r.Chance(2, 3) {
+		if mode == "rm" && via == "" && !nilSec && r.Chance(2, 3) {
 			ops = append(ops, "close")
 		}
 		if mode == "rm" {
